@@ -666,6 +666,19 @@ func blind(t *testing.T, o *engine.Outcome, idx int, op *engine.Op) {
 				o.Fault("blinded_key_bit_flip")
 			}
 		}
+		// something that is not a blinded destination at all (a DSA destination with
+		// a NULL certificate) is not the blinding of anything
+		if ud, _, err := destination.ReadDestination(append([]byte(nil), refmodel.NewIdentity(identSeed+17, refmodel.SigDSA, refmodel.EncElGamal, "null", 0).Bytes...)); err == nil {
+			var ok1, ok2 bool
+			o.Guard("VerifyBlindedSignature", func() {
+				ok1 = encrypted_leaseset.VerifyBlindedSignature(ud, dest, alpha)
+				ok2 = encrypted_leaseset.VerifyBlindedSignature(n.bd, ud, alpha)
+			})
+			if ok1 || ok2 {
+				o.Violate("C16/blinding-check-passes-for-an-unrelated-destination", "op %d node %d: VerifyBlindedSignature accepted a DSA destination as blinded (%v) or as original (%v)", idx, ni, ok1, ok2)
+			}
+			o.Fault("unrelated_destination_offered_as_blinded")
+		}
 		others := map[string][32]byte{}
 		if a2, err := kdf.DeriveBlindingFactor(secret, dayString(n.unix+86400)); err == nil {
 			others["next-day-factor"] = a2
